@@ -43,6 +43,11 @@ BODIES = {
 FORM_VALS = {"urlenc": [("a", "1"), ("b", "2"), ("a", "3")], "multipart": [("a", "v"), ("f", "<file:x:DATA>")]}
 
 
+def _mt(ct):
+    """the media type of a Content-Type line: case-insensitive, parameters aside"""
+    return ct.split(";")[0].strip().lower()
+
+
 def chunkings(b, full):
     yield [b]
     if len(b) > 3:
@@ -112,7 +117,7 @@ def model(kind, bname, seq, disc, nchunks_nonempty_before_disc):
             if "json" in st["cache"]:
                 out.append(st["cache"]["json"])
                 continue
-            if ct != "application/json":
+            if _mt(ct) != "application/json":
                 res = ("HTTP", 415)
             else:
                 b = get_body()
@@ -130,10 +135,10 @@ def model(kind, bname, seq, disc, nchunks_nonempty_before_disc):
             if "form" in st["cache"]:
                 out.append(st["cache"]["form"])
                 continue
-            if ct.startswith("multipart/form-data"):
+            if _mt(ct) == "multipart/form-data":
                 r = stream_source()
                 res = ("val", FORM_VALS["multipart"]) if r[0] in ("val", "ok") else r
-            elif ct == "application/x-www-form-urlencoded":
+            elif _mt(ct) == "application/x-www-form-urlencoded":
                 b = get_body()
                 res = ("val", FORM_VALS["urlenc"]) if b[0] == "val" else b
             else:
@@ -302,7 +307,7 @@ def run_asgi_seq(bname, chunks, seq, disc):
 
 def judge_seq(ctx, kind, bname, chunks, seq, disc):
     body, ct = BODIES[bname]
-    case = {"iface": kind, "body": bname, "chunk_lengths": [len(c) for c in chunks], "ops": list(seq), "disconnect_at": disc}
+    case = {"iface": kind, "body": bname, "content_type": ct, "chunk_lengths": [len(c) for c in chunks], "ops": list(seq), "disconnect_at": disc}
     nonempty_before = sum(1 for c in (chunks[:disc] if disc is not None else chunks) if c)
     exp = model(kind, bname, seq, disc, nonempty_before)
     if kind == "wsgi":
@@ -459,7 +464,7 @@ def run_concurrent(ctx, bname, chunks, disc, tasks, ryield):
             if op in ("body", "json", "form"):
                 shared_objs.setdefault(op, []).append(r[1])
         if r[0] == "HTTP":
-            ok = (op == "json" and (ct != "application/json" or bname == "badjson") and r[1] in (415, 400)) or \
+            ok = (op == "json" and (_mt(ct) != "application/json" or bname == "badjson") and r[1] in (415, 400)) or \
                  (op == "form" and bname not in FORM_VALS and r[1] == 415)
             if not ok:
                 V(f"unexpected-http-error|{op}|{r[1]}")
@@ -473,7 +478,7 @@ def run_concurrent(ctx, bname, chunks, disc, tasks, ryield):
                 V(f"compute-once-broken|{op}")
     if pending:
         V("task-never-finished")
-    body_touching = [op for op in ops if op != "close" and not (op == "json" and ct != "application/json") and not (op == "form" and bname not in FORM_VALS)]
+    body_touching = [op for op in ops if op != "close" and not (op == "json" and _mt(ct) != "application/json") and not (op == "form" and bname not in FORM_VALS)]
     if disc is None and body_touching and complete == 0:
         if not all(r[0] == "HTTP" for _, op, r in results if op in body_touching):
             V("body-lost(no accessor obtained it)")
@@ -594,7 +599,17 @@ def wsgi_transport(ctx, rng):
                 ctx.case(("wsgi-large", size, kind, op))
 
 
+def other_spellings(ctx):
+    """every third shard sends the same bodies under other legal spellings of the Content-Type line: parameter names in another case (the media type itself stays in lower case: how its case is read is in no statement), no blank after ';', a quoted parameter value, another charset that is declared"""
+    if ctx.shard % 3 == 2:
+        BODIES["json"] = ('{"a": [1, 2, 3]}'.encode("utf-16"), "application/json;Charset=utf-16")
+        BODIES["urlenc"] = (b"a=1&b=2&a=3", 'application/x-www-form-urlencoded; CHARSET="utf-8"')
+        BODIES["multipart"] = (MP, 'multipart/form-data;Boundary="bb"')
+        ctx.extra["content_type_spellings"] = "other legal spellings (case of names, quoted values, declared utf-16)"
+
+
 def run(ctx):
+    other_spellings(ctx)
     # ---- the FIRST use in a fresh server process, pre-empted by a second request (one child process per switch point, vf/firstuse.py)
     if ctx.shard == 0:
         from vf import firstuse
@@ -780,6 +795,9 @@ def in_flight(ctx, op, specs, pre=None):
 
 
 def replay(ctx, case):
+    if case.get("body") in BODIES and case.get("content_type") not in (None, BODIES[case["body"]][1]):
+        ctx.shard = 2
+        other_spellings(ctx)
     if case.get("second_request_object_on_the_same_scope"):
         other_channel(ctx, case["op"], case["first_object_reads"])
         ctx.case(1)
